@@ -9,7 +9,7 @@ from kernelvc.obligations import KernelChecker
 
 # obligation-name prefix -> properties it carries
 TAGS = {
-    "extent": {"C08", "C02", "C04", "C05", "C01"},
+    "extent": {"C08", "C02", "C04", "C05", "C01", "C10"},
     "frame": {"C07"},
     "purity": {"C07"},
     "accumulate": {"C07"},
@@ -19,6 +19,7 @@ TAGS = {
     "well-formed": {"C19", "C08"},
     "read-set": {"C05"},
     "perm-flag": {"C03", "C08"},
+    "rule-consistency": {"C11", "C01"},
 }
 
 
@@ -35,6 +36,8 @@ def relevant(prop, kernel, oname):
             return kernel["integral_type"] == "cell"
         if prop == "C05":
             return " w[" in oname or " c[" in oname
+        if prop == "C10":
+            return "sum_factorization=True" in kernel["id"] or "part=diagonal" in kernel["id"]
     return True
 
 
